@@ -17,14 +17,15 @@ CASE_GUARD_S = {'quick': 300, 'thorough': 3600}  # a case is a composite (a bloc
 CHUNK = 6
 RULE = ('trees: leaves x { !, &&, || with 2 or 3 operands } to depth 2 (binary at depth 2; thorough: 4 leaves and ternary/3-level spot family) for each of the '
         '6 host types (integer, line, text, file, files matcher; text transformer with | chains); renderings: minimal parentheses, full parentheses, '
-        'redundant pairs (every placement of one and two pairs on the depth-1 trees), layouts (single / double blanks, line break after each infix operator, '
+        'redundant pairs (every placement of one and two pairs on the depth-1 trees), layouts (single / double blanks, line break after each infix operator, inside parentheses also before each operator of a one-kind chain, '
         'after !, after ( and before ) ); simple-expression contexts (every/any line, num-lines, -transformed-by, contents, line-num, -selection, '
         '-with-pruned, every/any file, num-files, dir-contents, replace -at, filter) followed by an outer infix operator; malformed family = every '
-        'single-token deletion, duplication and adjacent transposition of the renderings of the depth-1 trees; '
+        'single-token deletion, duplication and adjacent transposition of the renderings of the depth-1 trees, plus dangling / doubled operators of every mix of && and || '
+        '(bare, parenthesised, unbalanced), each also laid out with a line break before every infix operator; '
         'non-trivial = tree with at least one operator (value depends on structure) ; renderings of one tree are counted once')
 ASSUMPTIONS = [
-    'a line break *before* an infix operator is not in the must-accept set (the manual only shows breaks after operators / inside parentheses); '
-    'it is explored in the thorough tier as may-be-rejected: either a syntax error or the reference value',
+    'a line break *before* an infix operator is must-accept only inside parentheses and for a chain of one operator kind (as the project\'s own parser tests '
+    'require); elsewhere it is not in the must-accept set (the manual is silent; the unchanged program rejects e.g. `( a || b <NL> && c )`)',
     'program arguments extend to the end of line or `)`: run-leaves are always written inside parentheses',
 ]
 
@@ -349,8 +350,8 @@ def cases(tier):
         nd1 = len(d1_trees(3))
         for i in range(0, nd1, 12):
             yield ('malformed', host, i, min(i + 12, nd1))
-        if tier == 'thorough':
-            yield ('nl-before-op', host)
+        yield ('malformed', host, -1, -1)  # dangling / doubled operators of mixed kinds
+        yield ('nl-before-op', host)
     yield ('transformer', 0)
     for i in range(len(CONTEXTS)):
         yield ('context', i)
@@ -472,7 +473,7 @@ def run(case) -> Result:
         return _redundant(res, case[1], case)
     if k == 'malformed':
         return _malformed(res, case)
-    if k == 'mal-one':
+    if k in ('mal-one', 'mal-nl'):
         return _mal_one(res, case[1], list(case[2]))
     if k == 'nl-before-op':
         return _nl_before_op(res, case[1], case)
@@ -573,8 +574,28 @@ MAL_LEAVES = {
 }
 
 
+def dangling_family(host):
+    """Malformed token lists with a dangling / doubled infix operator of EVERY mix of && and || (the single mutations of the depth-1 trees only
+    have one operator kind), bare, parenthesised and with an unbalanced opening parenthesis."""
+    l0, l1, l2 = MAL_LEAVES[host]
+    out = []
+    for op1 in ('&&', '||'):
+        for op2 in ('&&', '||'):
+            core = l0 + [op1] + l1 + [op2]
+            out += [core, ['('] + core + [')'], ['(', '('] + core + [')'], ['('] + core + [')', ')']]
+            for op3 in ('&&', '||'):
+                core3 = l0 + [op1] + l1 + [op2, op3] + l2
+                out += [core3, ['('] + core3 + [')'], ['(', '('] + core3 + [')']]
+                out += [['(', '('] + l0 + [op1] + l1 + [op2, ')', op3] + l2 + [')']]
+    return out
+
+
 def _malformed(res, case):
     _, host, a, b = case
+    if a == -1:
+        for m in dangling_family(host):
+            _mal_one(res, host, m)
+        return res
     seen = set()
     ml = MAL_LEAVES[host]
     for t in d1_trees(3)[a:b]:
@@ -620,6 +641,20 @@ def _mal_one(res, host, toks):
         if o.rc != 65 or o.ident not in ('SYNTAX_ERROR', 'VALIDATION_ERROR') or o.exc:
             res.violation(one, ['%s host: malformed `%s` is not an expression of the documented grammar, but the case gave rc=%s %s (expected exit 65)'
                                 % (host, src, o.rc, o.out.strip()), ' / '.join(cli.stderr_lines(o.err)[:5])])
+        # no layout makes a malformed expression well-formed: the same tokens with a line break before every infix operator,
+        # bare and wrapped in one more pair of parentheses (a dangling operator at the start of a line must not be taken for the `)`)
+        if any(t in ('&&', '||') for t in toks):
+            for wrapped in (False, True):
+                src2 = layout((['('] + list(toks) + [')']) if wrapped else list(toks), 'nl-before-op')
+                _setup_world(w, seam)
+                text = '\n'.join(HEAD[:4] + ['copy d'] + HEAD[5:] + ['def %s M = %s' % (TYPE[host], src2)]) + '\n'
+                o = cli.run_case(text)
+                res.n += 1
+                res.outcomes[(host, 'malformed-invalid-nl', o.ident)] += 1
+                if o.rc != 65 or o.ident not in ('SYNTAX_ERROR', 'VALIDATION_ERROR') or o.exc:
+                    res.violation(('mal-nl', host, tuple(toks), wrapped), [
+                        '%s host: malformed `%s` (line break before each infix operator%s) is not an expression of the documented grammar, but the case gave rc=%s %s (expected exit 65)'
+                        % (host, src2.replace('\n', '<NL>'), ', wrapped in parentheses' if wrapped else '', o.rc, o.out.strip()), ' / '.join(cli.stderr_lines(o.err)[:5])])
     else:
         val = ref_eval(tree, MODEL[host])
         text = '\n'.join(HEAD[:4] + ['copy d'] + HEAD[5:] + ['def %s M = %s' % (TYPE[host], src), ASSERT[host] % ('M' if val else '! M')]) + '\n'
@@ -648,9 +683,12 @@ def _nl_before_op(res, host, case):
         o = cli.run_case(text)
         res.n += 1
         res.outcomes[(host, 'nl-before-op', o.ident)] += 1
-        if not ((o.rc == 0 and o.out == 'PASS\n') or (o.rc == 65 and o.ident == 'SYNTAX_ERROR')):
-            res.violation(case, ['%s host: `%s` (line break before operator, inside parentheses) must be a syntax error or have value %s; got rc=%s %s'
-                                 % (host, src, val, o.rc, o.out.strip())])
+        # inside parentheses an infix operator may stand at the start of a line (the project's own parser tests require it:
+        # TestCombinedExpressions.test__inside_parentheses__primitive_recursive_followed_by_binary_op): for a chain of ONE operator kind this is
+        # must-accept with the reference value.  (Mixed chains, e.g. `( a || b <NL> && c )`, are rejected by the unchanged program: not required.)
+        if not (o.rc == 0 and o.out == 'PASS\n'):
+            res.violation(case, ['%s host: `%s` (inside parentheses, line break before each operator of a chain of one operator kind) must be accepted with value %s; got rc=%s %s / %s'
+                                 % (host, src.replace('\n', '<NL>'), val, o.rc, o.out.strip(), ' / '.join(cli.stderr_lines(o.err)[-2:])[:200])])
     return res
 
 
